@@ -40,7 +40,8 @@ R_SCOPES = {
             (AX, AP, L("x", None, D1)),
             (AX, AP, L("x", None, D2)),
             (AX, AP, L("y", None, D1)),
-            (B("b"), AP, L("x", None, D3)),
+            # (a datatype whose IRI is a proper part of the xsd:string IRI: the XSD namespace)
+            (B("b"), AP, L("x", None, "http://www.w3.org/2001/XMLSchema#")),
             (AX, AP, L("x", None, XSD_STRING)),
             (AX, AP, L("x")),  # (the same text plain: another term than the one typed xsd:string)
         ],
